@@ -17,6 +17,7 @@ var Hostile = []string{
 	"", " ", "a", "A", "0", "00", "a b", "a\x00b", "\x00", `"`, `""`, `"x"`, `x"y`, `x""y`, "'", "\\", "\n", "l1\nl2", "\r\n", "\t",
 	"ü", "€uro", "日本語", "\xff", "\xff\xfe", "\xc3", "a\xc3(", "$1", "$0", "&", "|", "^", "(", ")", ";", ",", "=", "a=b",
 	"a&b|c", strings.Repeat("x", 300), strings.Repeat("é", 100), "NULL", "null", "true", "count", "%", "100%", "%d", "%%", "%!s(MISSING)", "%s%s", "a\r\nb", "\r", "\n\r", "\u2028", "\ufeff", "a\u0301",
+	"''", "it''s", "'''", `\\`, `\n`, `C:\new\table`, `\"`, "``", "$$", "&&", "||", ";;", "  ", "a  b", "\x80", "\x80\x80\xbf",
 }
 
 // Identifier-safe column names (usable in the text query language).
